@@ -305,7 +305,9 @@ def r12_4(ctx):
         ctx.bad(construct, "no store of _old_val", lo.loc())
     else:
         gs = fl.guards_at(st[0]) or set()
-        extra = sorted(g for g in gs if not (g in {("name in self.syms", True), ("match", True), ("not match", False)}
+        # "the name is a (defined) option of the tree" in its spellings - which of them is right is R12.12's table
+        known = lambda g: (g[0].endswith(".nodes") and g[1]) or (g[0].endswith(" is None") and not g[1]) or (g[0].endswith(" is not None") and g[1])  # noqa: E731
+        extra = sorted(g for g in gs if not (g in {("name in self.syms", True), ("match", True), ("not match", False)} or known(g)
                                              or (g[1] and "_set_match(" in g[0]) or (g[1] and g[0].isidentifier() and g[0].endswith("match"))))
         (ctx.bad(construct, f"additionally guarded by {extra}", lo.loc(st[0])) if extra else ctx.ok(construct, lo.loc(st[0])))
     # _touch_dep_file: truncating touch on a path derived from the name
@@ -473,5 +475,126 @@ def r12_11(ctx):
                  "sync makes every later sync raise - the rerun never completes and no trigger is delivered", f.loc(opens[0])))
 
 
+def r12_12(ctx):
+    """R12.12 the line-by-line decision of _load_old_vals: for every line of the old auto.conf that matches the assignment pattern,
+    the option's trigger file is touched exactly when the name is not a *defined* option of the present tree (an option that
+    was removed but is still referenced stays in Kconfig.syms as an undefined symbol - sync_deps() compares defined symbols
+    only, so nobody else flags it: fixed defect 5.51), and an old value is stored only for a defined option. Decided as a
+    table: the tests on each path through the loop body are evaluated over M (line matched), K (name in syms), D (symbol has
+    definitions) and free atoms for everything else."""
+    repo = ctx.repo
+    lo = repo.func(f"{CORE}:Kconfig._load_old_vals")
+    ctx.analysed(lo.qual)
+    loops = [n for n in ast.walk(lo.node) if isinstance(n, ast.For) and any(
+        isinstance(c, ast.Call) and ast.unparse(c.func).endswith("_set_match") for c in ast.walk(n))]
+    if not loops:
+        raise AnchorError("_load_old_vals: the loop over the lines of auto.conf was not found")
+    loop = loops[0]
+    unpack = [s for s in ast.walk(loop) if isinstance(s, ast.Assign) and isinstance(s.value, ast.Call) and ast.unparse(s.value.func).endswith(".groups")]
+    if not unpack:
+        raise AnchorError("_load_old_vals: `name, val = match.groups()` not found")
+    split_line = unpack[0].lineno
+    mvar = ast.unparse(unpack[0].value.func.value)
+    nvar = ast.unparse(unpack[0].targets[0].elts[0]) if isinstance(unpack[0].targets[0], ast.Tuple) else None
+    if nvar is None:
+        raise AnchorError("_load_old_vals: the name is not unpacked from the match")
+    # locals holding the symbol looked up by name
+    symvars = {ast.unparse(s.targets[0]) for s in ast.walk(loop) if isinstance(s, ast.Assign) and len(s.targets) == 1 and isinstance(s.targets[0], ast.Name)
+               and ast.unparse(s.value) in (f"self.syms[{nvar}]", f"self.syms.get({nvar})", f"self.syms.get({nvar}, None)")}
+    symexprs = set(symvars) | {f"self.syms[{nvar}]", f"self.syms.get({nvar})"}
+
+    def on_stmt(st, p: Path, loops_):
+        for n in ast.walk(st):
+            if isinstance(n, ast.Call) and ast.unparse(n.func).split(".")[-1] == "_touch_dep_file" and len(n.args) > 1 and ast.unparse(n.args[1]) == nvar:
+                p.events.append(("TOUCH", st.lineno, None))
+        if isinstance(st, ast.Assign) and ast.unparse(st.targets[0]).endswith("._old_val") and ast.unparse(st.value) != "None":
+            p.events.append(("STORE", st.lineno, None))
+
+    paths = Enumerator(on_stmt).run(loop.body, Path())
+    free: Dict[str, str] = {}
+
+    def leaf(node):
+        t = ast.unparse(node).replace('"', "'")
+        ln = getattr(node, "lineno", 0)
+        if ln <= split_line and t in (mvar, f"{mvar} is not None"):
+            return "M", True
+        if ln <= split_line and t == f"{mvar} is None":
+            return "M", False
+        if t in (f"{nvar} in self.syms",) or any(t == f"{s} is not None" for s in symexprs):
+            return "K", True
+        if t in (f"{nvar} not in self.syms",) or any(t == f"{s} is None" for s in symexprs):
+            return "K", False
+        if any(t == f"{s}.nodes" for s in symexprs) or any(t in (f"{s} in self.unique_defined_syms", f"len({s}.nodes) > 0", f"{s}.nodes != []") for s in symexprs):
+            return "D", True
+        if any(t in (f"{s} not in self.unique_defined_syms", f"len({s}.nodes) == 0", f"{s}.nodes == []") for s in symexprs):
+            return "D", False
+        if any(s in {x.id for x in ast.walk(node) if isinstance(x, ast.Name)} for s in (nvar,)) and ("syms" in t):
+            raise AnalysisError(f"_load_old_vals: test `{t[:70]}` decides whether the name is known in a way the table does not express")
+        key = f"{t}@{ln}"
+        free.setdefault(key, f"F{len(free)}")
+        return free[key], True
+
+    def ev(node, v):
+        if isinstance(node, ast.BoolOp):
+            # short-circuit, so that `sym is not None and sym.nodes` never asks for D of an unknown name
+            if isinstance(node.op, ast.And):
+                return all(ev(x, v) for x in node.values)
+            return any(ev(x, v) for x in node.values)
+        if isinstance(node, ast.UnaryOp) and isinstance(node.op, ast.Not):
+            return not ev(node.operand, v)
+        a_, pos = leaf(node)
+        return v[a_] if pos else not v[a_]
+
+    table = []
+    for p, status in paths:
+        table.append(([(node, pol) for c, pol, ln, node in p.conds], {e[0] for e in p.events}))
+
+    def collect(node):
+        if isinstance(node, ast.BoolOp):
+            for x in node.values:
+                collect(x)
+        elif isinstance(node, ast.UnaryOp) and isinstance(node.op, ast.Not):
+            collect(node.operand)
+        else:
+            leaf(node)
+    for conds, _ in table:
+        for node, pol in conds:
+            collect(node)
+    atoms = ["M", "K", "D"] + sorted(set(free.values()))
+    if len(atoms) > 12:
+        raise AnalysisError(f"_load_old_vals: {len(atoms)} atoms in the loop body")
+    bad = []
+    n_val = 0
+    for bits in itertools.product((True, False), repeat=len(atoms)):
+        v = dict(zip(atoms, bits))
+        if v["D"] and not v["K"]:
+            continue  # a defined symbol is in syms
+        n_val += 1
+        match = [ev_ for conds, ev_ in table if all(ev(node, v) == pol for node, pol in conds)]
+        if not match:
+            raise AnalysisError(f"_load_old_vals: no path for {v}")
+        got_touch = {("TOUCH" in m) for m in match}
+        got_store = {("STORE" in m) for m in match}
+        if len(got_touch) != 1:
+            raise AnalysisError(f"_load_old_vals: valuation {v} is ambiguous")
+        touch, store = got_touch.pop(), any(got_store)
+        want_touch = v["M"] and not v["D"]
+        if touch != want_touch:
+            bad.append((v, f"{'touches' if touch else 'does not touch'} the trigger file"))
+        elif store and not (v["M"] and v["D"]):
+            bad.append((v, "stores an old value"))
+    construct = "Kconfig._load_old_vals/a recorded name is flagged iff it is not a defined option any more"
+    if bad:
+        v, what = bad[0]
+        case = ("a line that is no assignment" if not v["M"] else "a name that is unknown" if not v["K"] else
+                "an option that was removed but is still referenced (in syms, no definition)" if not v["D"] else "a defined option")
+        ctx.bad(construct, f"for {case} the loop body {what}: " +
+                ("the option vanished from the build-visible configuration and nothing flags it" if v["M"] and not v["D"] else
+                 "a file is touched for an option sync_deps() compares itself" if v["M"] else "a file is touched for a line that records nothing"),
+                lo.loc(loop))
+    else:
+        ctx.ok(construct, lo.loc(loop), valuations=n_val, paths=len(paths))
+
+
 def rules():
-    return [("R12.11", r12_11, 2), ("R12.10", r12_10, 1), ("R12.9", r12_9, 1), ("R12.8", r12_8, 1), ("R12.7", r12_7, 2), ("R12.1", r12_1, 6), ("R12.2", r12_2, 2), ("R12.3", r12_3, 1), ("R12.4", r12_4, 6), ("R12.5", r12_5, 4), ("R12.6", r12_6, 4)]
+    return [("R12.12", r12_12, 1), ("R12.11", r12_11, 2), ("R12.10", r12_10, 1), ("R12.9", r12_9, 1), ("R12.8", r12_8, 1), ("R12.7", r12_7, 2), ("R12.1", r12_1, 6), ("R12.2", r12_2, 2), ("R12.3", r12_3, 1), ("R12.4", r12_4, 6), ("R12.5", r12_5, 4), ("R12.6", r12_6, 4)]
